@@ -135,10 +135,10 @@ Definition get_wop : dec wop :=
   (t <- get_n ;;
    match t with
    | 0%N =>
-       nm <- get_opt get_str ;; hit <- get_opt get_n ;; ok <- get_bool ;;
+       nm <- get_opt get_str ;; hit <- get_opt get_n ;; ok <- get_bool ;; va <- get_bool ;;
        gs <- get_list (get_list get_effect) ;; res <- get_result ;;
        ca <- get_list get_n ;; st <- get_list (get_pair get_str get_n) ;;
-       ret (WHandshake (Hello nm hit ok) (HsSeen gs res ca st))
+       ret (WHandshake (Hello nm hit ok va) (HsSeen gs res ca st))
    | 1%N => p <- get_policy ;; ret (WEnv (OSetPolicy p))
    | 2%N => n <- get_str ;; ret (WEnv (OStoreDel n))
    | 3%N => n <- get_str ;; c <- get_cert_w ;; ret (WEnv (OStorePut n c))
@@ -167,8 +167,9 @@ Definition check_line (l : list Z) : Z :=
   match decode get_case l with
   | Some (CHistory st w ops) => let '(a, s) := replay (tbl_space st) w ops in code a s
   | Some (CQual st s o) =>
-      (* the subject-syntax clause: the model of SubjectQualifiesForCert is the specification *)
-      code (Bool.eqb (qualifies (tbl_space st) s) o) true
+      (* the subject-syntax clause: the implementation's answer against the source as translated
+         today (model) and against the documented rule (specification) *)
+      code (Bool.eqb (qualifies (tbl_space st) s) o) (Bool.eqb (qual_spec (tbl_space st) s) o)
   | None => code_decode_error
   end.
 
